@@ -27,7 +27,7 @@ from dask.tokenize import tokenize
 
 PROPERTY = "C11"
 LEVEL = "other"
-BUDGET = {"quick": 150, "thorough": 1500}
+BUDGET = {"quick": 200, "thorough": 1500}
 EXPLANATION = (
     "Bounded symbolic execution of the identity of dask's task-graph nodes. Per obligation two nodes a, b are drawn independently from one "
     "choice grammar (solver-enumerated shapes): Task with function f / g (tuple builders that return their name, the positional arguments in "
@@ -57,7 +57,8 @@ STUBS = [
 ]
 ENUM = [
     "node shapes (choice grammar, solver-enumerated)",
-    "every integer literal leaf: tokenisation str()s / md5s it, so each literal is enumerated over its whole range [0, lmax]",
+    "every integer literal leaf: tokenisation str()s / md5s it, so each literal is enumerated over its whole range [0, lmax] (literals inside a "
+    "DataNode value are concretised when the DataNode is built, because DataNode records type(value))",
     "dependency values are unbounded symbolic ints, except in pairs where a Set container holds a TaskRef: set() hashes the value, so there all "
     "dependency values are enumerated over [0, vmax]",
 ]
@@ -292,7 +293,8 @@ def build(d, key=None):
     if t == "Alias":
         return Alias(d[1], d[2])
     if t == "Data":
-        return DataNode(d[1], build(d[2]))
+        # DataNode records type(value): hand it plain ints (the literal is concretised here instead of at tokenisation)
+        return DataNode(d[1], build(conc(d[2])))
     if t == "rawlist":
         return [build(x) for x in d[1]]
     if t == "rawtuple":
